@@ -75,7 +75,7 @@ func (c *schedCtl) who() int {
 
 // wait blocks until the current step of the schedule is (g, kind); false when the schedule is stuck
 func (c *schedCtl) wait(g int, kind byte) bool {
-	deadline := time.AfterFunc(4*time.Second, func() {
+	deadline := time.AfterFunc(20*time.Second, func() {
 		c.mu.Lock()
 		c.stuck = true
 		c.mu.Unlock()
